@@ -6,8 +6,11 @@
 //! stopped.  Everything the user can observe being dropped carries a drop counter: module state,
 //! processing elements, task captures, message bodies.
 //!
-//! The simulation is executed TWICE in this process; both records are printed:
+//! The simulation is executed THREE times in this process.  The records of the first two are printed:
 //!   ok res nrem time  created(proc elem task msg)  once(proc elem task msg)  notonce alive  nlog log*
+//! followed by one number: 1 iff the live heap (bytes or blocks, counted by a global allocator
+//! wrapper, with this file's own bookkeeping released) is larger after the third execution than
+//! after the second, i.e. an execution of this simulation leaves memory allocated for ever.
 //!   log entry: time module kind payload   kind: 1 at_sim_start 2 handle_message 3 task finished
 //!                                               4 at_sim_end 5 reset
 use des::net::channel::{Channel, ChannelDropBehaviour, ChannelMetrics};
@@ -18,8 +21,39 @@ use des::prelude::*;
 use implrun::Cur;
 use std::cell::RefCell;
 use std::collections::HashSet;
-use std::sync::atomic::{AtomicU64, Ordering::SeqCst};
+use std::alloc::{GlobalAlloc, Layout, System};
+use std::sync::atomic::{AtomicIsize, AtomicU64, Ordering::SeqCst};
 use std::sync::Mutex;
+
+/// counts what is currently allocated in this process
+struct Counting;
+static LIVE_BYTES: AtomicIsize = AtomicIsize::new(0);
+static LIVE_BLOCKS: AtomicIsize = AtomicIsize::new(0);
+unsafe impl GlobalAlloc for Counting {
+    unsafe fn alloc(&self, l: Layout) -> *mut u8 {
+        LIVE_BYTES.fetch_add(l.size() as isize, SeqCst);
+        LIVE_BLOCKS.fetch_add(1, SeqCst);
+        System.alloc(l)
+    }
+    unsafe fn dealloc(&self, p: *mut u8, l: Layout) {
+        LIVE_BYTES.fetch_sub(l.size() as isize, SeqCst);
+        LIVE_BLOCKS.fetch_sub(1, SeqCst);
+        System.dealloc(p, l)
+    }
+    unsafe fn realloc(&self, p: *mut u8, l: Layout, new_size: usize) -> *mut u8 {
+        LIVE_BYTES.fetch_add(new_size as isize - l.size() as isize, SeqCst);
+        System.realloc(p, l, new_size)
+    }
+}
+#[global_allocator]
+static ALLOC: Counting = Counting;
+
+/// live (bytes, blocks) with this file's own logs released
+fn live_heap() -> (isize, isize) {
+    *DROPS.lock().unwrap() = [Vec::new(), Vec::new(), Vec::new(), Vec::new()];
+    *LOG.lock().unwrap() = Vec::new();
+    (LIVE_BYTES.load(SeqCst), LIVE_BLOCKS.load(SeqCst))
+}
 
 static DROPS: Mutex<[Vec<u32>; 4]> = Mutex::new([Vec::new(), Vec::new(), Vec::new(), Vec::new()]);
 static LOG: Mutex<Vec<[u64; 4]>> = Mutex::new(Vec::new());
@@ -441,6 +475,12 @@ fn run_line(nums: &[u64]) -> Vec<u64> {
     let sc = decode(nums);
     let mut out = run_once(&sc);
     // a second simulation in the same process
-    out.extend(run_once(&sc));
+    let second = run_once(&sc);
+    let (b2, n2) = live_heap();
+    // and a third: whatever an execution of this simulation leaves allocated shows as growth
+    drop(run_once(&sc));
+    let (b3, n3) = live_heap();
+    out.extend(second);
+    out.push(u64::from(b3 > b2 || n3 > n2));
     out
 }
